@@ -1,5 +1,6 @@
 #!/usr/bin/env python3-vt
-"""C07 (ordering kernel) and C06 (its independence of hash iteration order) - lexicographical_topological_sort.
+"""C07 (ordering kernels) and C06 (their independence of hash iteration order): lexicographical_topological_sort, mainline_sort
+(and, for C06, separate, get_auth_chain_diff, the creator cache of get_power_level_for_sender - see the run_* docstrings).
 
 The exposed topological sort is executed from the MIR of ruma-state-res on every DAG over up to K nodes (every edge set
 consistent with some topological labelling, every assignment of the identifiers to the nodes), with symbolic power level
@@ -10,7 +11,8 @@ every hash container it walks (one symbolic order index per iteration).  z3 deci
     then the earliest timestamp, then the smallest event id.
 Because the answer is a function of the graph and the keys only, it does not depend on the iteration orders (C06, for this
 kernel).  BinaryHeap is a library model (pop = maximum by the element's Ord, which is the crate's TieBreaker::cmp).
-Outside the claim: resolve() as a whole (conflict separation, auth-chain difference, iterative auth checks, mainline ordering)."""
+Outside the claim: resolve() as a whole (the composition of the kernels, iterative auth checks, reverse_topological_power_sort's
+graph construction)."""
 import os, sys, re, itertools
 sys.path.insert(0, os.path.dirname(os.path.abspath(__file__)))
 from common import *
@@ -328,6 +330,152 @@ def run_creator_cache(C, job):
         C.samples.append({'creator_cache': label, 'pairs': len(first) * len(second)})
 
 
+def run_mainline(C, job):
+    """mainline_sort: events ordered by the mainline position of their closest power-level ancestor (older first), then timestamp,
+    then event id.  Concrete small histories (a power-level mainline P0 <- P1 <- P2 and events citing one of them, a side power
+    event, or nothing), symbolic timestamps, every hash iteration order.  slice::sort_by_key is a library model (stable sort by the
+    key's Ord: tuple order, Option None < Some, integers) applied to the keys the crate computes."""
+    shape_idx = job
+    from authsym import install
+    import c08
+    E = C.fresh_engine(KEYS, N=8)
+    E.src.load(C.extra[('events', 'dumped')][2])
+    E.feas_mode = 'budget'; E.feas_timeout_ms = 300
+    E.hash_any_order = True
+    E.loop_bound = 64
+    E.alloc_const = lambda v: c08.alloc_const(E, v)
+    class _W: pass
+    install(C, E, _W())
+    TET = 'ruma_events::enums::TimelineEventType'
+    evid = lambda b: Adt('ruma_common::identifiers::event_id::OwnedEventId', None, [E.const_str(b)])
+    ts = {}
+    def mk(idb, etype, auth, skey=b''):
+        t = z3.BitVec('ts_' + idb.decode().strip('$'), 64); ts[idb] = t
+        return Obj('Event', {'event_id': evid(idb), 'room_id': E.const_str(b'!r:x'), 'sender': E.const_str(b'@a:x'), 'event_type': Adt(TET, etype, []),
+                             'content': Opaque('content'), 'origin_server_ts': Adt('ruma_common::time::MilliSecondsSinceUnixEpoch', None, [Adt('js_int::UInt', None, [I(t, 64)])]),
+                             'state_key_outcomes': (lambda: [(TRUE, some(E.const_str(skey)))]),
+                             'prev_events_outcomes': (lambda: [(TRUE, Obj('SeqIter', ((), 0)))]),
+                             'auth_events_outcomes': (lambda auth=auth: [(TRUE, Obj('SeqIter', (tuple(E.alloc_const(evid(x)) for x in auth), 0)))]), 'redacts': NONE})
+    # mainline: P2 (resolved) -> P1 -> P0 ; Q: a power-levels event off the mainline whose parent is P0
+    store = {b'$p0': mk(b'$p0', 'RoomPowerLevels', []), b'$p1': mk(b'$p1', 'RoomPowerLevels', [b'$p0']), b'$p2': mk(b'$p2', 'RoomPowerLevels', [b'$p1']),
+             b'$q': mk(b'$q', 'RoomPowerLevels', [b'$p0'])}
+    parents = [None, b'$p0', b'$p1', b'$p2', b'$q']
+    combos = list(itertools.product(parents, repeat=3))
+    combos = combos[shape_idx::12]
+    ids3 = [b'$x', b'$y', b'$z']
+    depth_of = {None: 0, b'$p0': 0, b'$p1': 1, b'$p2': 2, b'$q': 0}
+
+    def fetch_event(E_, st, args):
+        s_ = E_.as_str(st, args[0]).conc()
+        return [(TRUE, some(store[s_]) if s_ in store else NONE)]
+
+    def fn_call(E_, st, callee, a, m):
+        tgt = E_.deref(st, a[0])
+        if isinstance(tgt, Obj) and tgt.kind == 'PyFn':
+            args = a[1].fields if isinstance(a[1], Tup) else [a[1]]
+            return tgt.data(E_, st, list(args))
+        return None
+    E.overrides.insert(0, (re.compile(r'^<.+ as (?:std|core)::ops::(?:Fn|FnMut|FnOnce)>::call(?:_mut|_once)?$'), fn_call))
+    idm = lambda E_, st, c, a, m: [(TRUE, a[0])]
+    E.overrides.insert(0, (re.compile(r'^<<E as events::traits::Event>::Id as std::borrow::Borrow>::borrow$'), lambda E_, st, c, a, m: [(TRUE, E_.as_str(st, a[0]))]))
+    E.overrides.insert(0, (re.compile(r'^<<E as events::traits::Event>::Id as std::(?:clone::Clone>::clone|borrow::ToOwned>::to_owned)$'), lambda E_, st, c, a, m: [(TRUE, E_.deref(st, a[0]))]))
+
+    def sort_by_key(E_, st, callee, a, m):
+        # stable sort by the Ord of the key type: here (usize, Option<MilliSecondsSinceUnixEpoch>, &Id)
+        v = E_.deref(st, a[0])
+        items = list(v.data if isinstance(v, Obj) else v.items)
+        keys = []
+        for x in items:
+            rs = E_.call_value(st, a[1], [E_.root_ref(st, x)])
+            if len(rs) != 1 or rs[0][1].kind != 'ret':
+                raise Inconclusive('sort_by_key: key closure forks or panics')
+            keys.append((rs[0][1].st, E_.deref(rs[0][1].st, rs[0][1].value)))
+
+        def cmp2(s1, x, s2, y):
+            """(less, equal) of two key components under the std / derived order of their type"""
+            x, y = E_.deref(s1, x), E_.deref(s2, y)
+            if isinstance(x, I):
+                return ((x.v < y.v) if x.s else z3.ULT(x.v, y.v)), x.v == y.v
+            if isinstance(x, Str) or (isinstance(x, Obj) and x.kind == 'String'):
+                bx, by = E_.as_str(s1, x).conc(), E_.as_str(s2, y).conc()
+                if bx is None or by is None:
+                    raise Inconclusive('sort_by_key: symbolic string key')
+                return z3.BoolVal(bx < by), z3.BoolVal(bx == by)
+            if isinstance(x, Adt) and x.ty.endswith('Option'):
+                if x.variant == 'None' or y.variant == 'None':
+                    return z3.BoolVal(x.variant == 'None' and y.variant == 'Some'), z3.BoolVal(x.variant == y.variant)
+                return cmp2(s1, x.fields[0], s2, y.fields[0])
+            if isinstance(x, (Tup, Adt)) and (isinstance(x, Tup) or x.variant is None):
+                lt, eq = z3.BoolVal(False), z3.BoolVal(True)
+                for fx, fy in zip(x.fields, y.fields):
+                    l2, e2 = cmp2(s1, fx, s2, fy)
+                    lt = z3.Or(lt, z3.And(eq, l2)); eq = z3.And(eq, e2)
+                return lt, eq
+            raise Inconclusive(f'sort_by_key: key component {x!r}')
+
+        def less(i, j):
+            lt, eq = cmp2(keys[i][0], keys[i][1], keys[j][0], keys[j][1])
+            # stable sort: equal keys keep their input order
+            return z3.simplify(z3.Or(lt, z3.And(eq, z3.BoolVal(i < j))))
+        outs = []
+        for perm in itertools.permutations(range(len(items))):
+            c = z3.simplify(z3.And(*[less(perm[k], perm[k + 1]) for k in range(len(perm) - 1)])) if len(perm) > 1 else TRUE
+            if z3.is_false(c): continue
+            def eff(st2, perm=perm):
+                new = Seq([items[k] for k in perm], v.kind) if isinstance(v, Seq) else Obj('Vec', tuple(items[k] for k in perm))
+                E_.store(st2, a[0], new)
+            outs.append((c, UNIT, eff))
+        return outs
+    E.overrides.insert(0, (re.compile(r'^(?:std|core)::slice::<impl \[.*\]>::sort_by_key$'), sort_by_key))
+    # `&mut Vec<T>` -> `&mut [T]`: keep the reference so that the sort model can write the sorted sequence back
+    E.overrides.insert(0, (re.compile(r'^<std::vec::Vec as std::ops::DerefMut>::deref_mut$'), lambda E_, st, c, a, m: [(TRUE, a[0])]))
+    f = E.find_func('mainline_sort')
+    npaths = 0
+    for combo in combos:
+        label = 'mainline_sort(' + ', '.join(f'{i.decode()}<-{(p or b"none").decode()}' for i, p in zip(ids3, combo)) + ')'
+        for i, p in zip(ids3, combo):
+            store[i] = mk(i, 'RoomTopic', [p] if p else [])
+        cons = [z3.ULE(ts[i], INT_MAX) for i in ids3]
+        del E.axioms[:]
+        st = E.new_state()
+        to_sort = Obj('Vec', tuple(evid(i) for i in ids3))
+        outs = E.run_func(f, [to_sort, some(evid(b'$p2')), Obj('PyFn', fetch_event)], cons, st=st)
+        C.absorb(E)
+        npaths += len(outs)
+        bad = []
+        for o in outs:
+            if o.kind != 'ret' or o.value.variant != 'Ok':
+                bad.append(o.cond()); continue
+            seq = [E.as_str(o.st, x).conc() for x in E.deref(o.st, o.value.fields[0]).data]
+            if sorted(seq) != sorted(ids3):
+                bad.append(o.cond()); continue
+            okc = []
+            for k in range(len(seq) - 1):
+                x, y = seq[k], seq[k + 1]
+                dx, dy = depth_of[combo[ids3.index(x)]], depth_of[combo[ids3.index(y)]]
+                okc.append(z3.BoolVal(dx < dy) if dx != dy else z3.Or(z3.ULT(ts[x], ts[y]), z3.And(ts[x] == ts[y], z3.BoolVal(x < y))))
+            bad.append(z3.And(o.cond(), z3.Not(z3.And(*okc))))
+        r, m = C.solve_split(label + ': closest mainline ancestor (older first), then timestamp, then event id; all hash iteration orders', cons + list(E.axioms), bad, chunk=32)
+        if r == 'sat':
+            vec = {'op': 'c07:mainline', 'events': [{'id': i.decode() + ':x', 'parent': (p.decode() + ':x') if p else None, 'ts': m.eval(ts[i], model_completion=True).as_long()} for i, p in zip(ids3, combo)]}
+            res = C.native(vec); vec['native'] = res
+            exp = [e['id'] for e in sorted(vec['events'], key=lambda e: (depth_of[e['parent'][:-2].encode()] if e['parent'] else 0, e['ts'], e['id']))]
+            vec['spec'] = exp
+            if res.get('r') == 'ok' and (res.get('order') != exp or not res.get('stable', True)):
+                C.report_violation(f'{label}: mainline_sort -> {res.get("order")}, mainline ordering is {exp}', vec)
+                C.samples.append({'counterexample': vec})
+                return
+            raise Broken(f'{label}: model does not reproduce natively: {vec}')
+    C.bounds[f'mainline:{shape_idx}'] = {'scenarios': len(combos), 'paths': npaths}
+    if shape_idx == 0:
+        vec = {'op': 'c07:mainline', 'repeat': 16, 'events': [{'id': '$x:x', 'parent': '$p2:x', 'ts': 1}, {'id': '$y:x', 'parent': '$q:x', 'ts': 9}, {'id': '$z:x', 'parent': '$p1:x', 'ts': 5}]}
+        res = C.native(vec)
+        C.model_validation += 1
+        if res.get('r') != 'ok' or res.get('order') != ['$y:x', '$z:x', '$x:x'] or not res.get('stable', True):
+            raise Broken(f'mainline validation instance fails natively: {res}')
+    C.samples.append({'mainline_sort': f'chunk {shape_idx}', 'scenarios': len(combos), 'paths': npaths})
+
+
 def expected_order(nodes):
     done, out = set(), []
     byid = {x['id']: x for x in nodes}
@@ -357,12 +505,14 @@ def body(C):
         per = max(1, len(shapes) // 12)
         for i in range(0, len(shapes), per):
             jobs.append((run_sort, (n, shapes[i:i + per])))
+    C.extra[('events', 'dumped')] = C.dump('events', want_mir=False)
+    jobs += [(run_mainline, i) for i in range(12)]
+    C.assumptions.append('mainline ordering (mainline_sort): power-level history p0 <- p1 <- p2 (resolved) with a side branch q <- p0; three events each citing one of them or no power event (125 combinations), symbolic timestamps, every hash iteration order; slice::sort_by_key is a library model (stable sort by the std order of the key tuple) applied to the keys the crate computes')
     if PID == 'C06' or os.environ.get('VERIF_PID') == 'C06':
         jobs += [(run_auth_diff, 1), (run_auth_diff, 2), (run_auth_diff, 3)]
         jobs += [(run_separate, (1, 0, 1)), (run_separate, (2, 0, 2)), (run_separate, (2, 1, 2))]
         if C.tier == 'thorough':
             jobs += [(run_separate, (3, i, 12)) for i in range(12)]
-        C.extra[('events', 'dumped')] = C.dump('events', want_mir=False)
         jobs += [(run_creator_cache, v) for v in ((1, 11) if C.tier == 'quick' else (1, 6, 10, 11))]
         C.assumptions.append('creator cache (get_power_level_for_sender): the symbolic world of C08 (state-event kind); the event cites either the create event or the power-levels event; the other visited event cites the create event')
         C.assumptions.append('conflict separation (separate): 1-2 state sets (3 thorough) over two state keys and two event ids, every combination (key absent / either id), every iteration order of the state maps, the occurrence map and its inner maps; results compared as maps / sets')
